@@ -80,6 +80,7 @@ Prog(name) ==
     [] name = "tmx_obj"          -> << <<"r", "tmx">> >>
     [] name = "ell_obj"          -> << <<"r", "ell">>, <<"c", "aux">> >>
     [] name = "normgrav_obj"     -> << <<"r", "ng">> >>
+    [] name = "geoid_ts_bilinear" -> << <<"r", "geoidl">> >>
 
 Names == {"geod_wgs84", "geod_obj", "geodex_wgs84", "geodex_obj", "geodexact_true", "line_pos", "lineex_pos", "rhumb_wgs84",
           "rhumb_series", "rhumb_exact", "rhumbline_pos", "tm_utm", "tm_obj", "tmx_utm", "ps_ups", "lcc_mercator", "lcc_obj",
@@ -87,7 +88,7 @@ Names == {"geod_wgs84", "geod_obj", "geodex_wgs84", "geodex_obj", "geodexact_tru
           "elliptic_obj", "normgrav_wgs84", "harmonic_obj", "circle_obj", "geoid_ts", "utmups_fwd", "mgrs_fwd", "osgb_fwd",
           "dms_codec", "gridcodes", "azeq_obj", "gnomonic_obj", "cassini_obj", "dst_obj",
           "gravmodel_obj", "gravcircle_obj", "gravmodel_circle", "magmodel_obj", "magcircle_obj", "magmodel_circle",
-          "geod_line_make", "geodex_line_make", "rhumb_line_make", "ps_obj", "tmx_obj", "ell_obj", "normgrav_obj"}
+          "geod_line_make", "geodex_line_make", "rhumb_line_make", "ps_obj", "tmx_obj", "ell_obj", "normgrav_obj", "geoid_ts_bilinear"}
 
 Threads == 1..NThreads
 
@@ -106,7 +107,7 @@ Statics == {"Geodesic::WGS84", "GeodesicExact::WGS84", "Rhumb::WGS84", "Transver
             "PolarStereographic::UPS", "LambertConformalConic::Mercator", "AlbersEqualArea::CylindricalEqualArea", "Geocentric::WGS84",
             "Ellipsoid::WGS84", "NormalGravity::WGS84", "OSGB::OSGBTM", "OSGB::northoffset", "Geohash::shift"}
 Objs == {"geod", "geodex", "line", "lineex", "rhumb", "rhumbline", "aux", "tm", "tmx", "ps", "lcc", "albers", "geoc", "local", "ell",
-         "ef", "ng", "sh", "roottable", "circle", "geoid", "dmstables", "gridtables", "cassini", "dst", "gm", "mm", "gcirc", "mcirc"}
+         "ef", "ng", "sh", "roottable", "circle", "geoid", "dmstables", "gridtables", "cassini", "dst", "gm", "mm", "gcirc", "mcirc", "geoidl"}
 
 \* the non-atomic memory access thread t performs in its NEXT micro-step: <<location, "R"/"W">> or <<>>
 NextAccess(t) ==
